@@ -54,6 +54,7 @@ def run_configs(jobs):
 
 def mk_req(prog, order, run=False, mir=False, std_last=False):
     return {"sources": [[m, prog["sources"][m]] for m in order], "entry": [prog["entry"]],
+            "missing_entry": prog.get("missing_entry"),
             "std": prog.get("std", True), "std_last": std_last, "run": run, "mir": mir,
             "timeout_ms": 15000}
 
@@ -200,10 +201,13 @@ def gen_accepted(rng, idx):
     nlib = rng.range(1, 3)
     libmods = ["LibA", "util.LibB", "deep.er.LibC"][:nlib]
     where = {c: rng.pick(libmods) for c in scopegen.LIB_ORDER}
-    deps = {"Fig": ["Box"], "Wr": ["Sh"]}
+    # which library classes a library class mentions (scopegen's LIB grows over time)
+    all_names = list(scopegen.LIB)
+    deps = {c: [d for d in all_names if d != c and re.search(rf"\b{d}\b", scopegen.LIB[c])] for c in all_names}
+    where.update({c: rng.pick(libmods) for c in all_names if c not in where})
     src = {}
     for m in libmods:
-        cls = [c for c in scopegen.LIB_ORDER if where[c] == m]
+        cls = [c for c in all_names if where[c] == m]
         imports = {}
         for c in cls:
             for d in deps.get(c, []):
@@ -213,7 +217,7 @@ def gen_accepted(rng, idx):
         text += "\n".join(scopegen.LIB[c] for c in cls) + "\n"
         src[m] = text
     imports = {}
-    for c in scopegen.LIB_ORDER:
+    for c in all_names:
         imports.setdefault(where[c], []).append(c)
     extra_calls, extra_imports = [], []
     # string literals shared between modules
@@ -415,12 +419,13 @@ class Re(val w: int, val h: int) : HasArea { method area(): int = this.w * this.
 class Wrap<T: HasArea>(val inner: T) : HasArea { method area(): int = this.inner.area() + 1 }
 class Opt<T>(None, Some(T)) {}
 class Tri(A(Opt<int>), B(int, Opt<Opt<int>>), C) {}
+class Hold(val o: Opt<int>, val n: int) {}
 class Measure {
   function <T: HasArea> of(t: T): int = t.area()
   function <T: HasArea> twice(t: T): int = Measure.of(t) + t.area()
 }
 ''',
- "Main": '''import { HasArea, Re, Wrap, Opt, Tri, Measure } from shapes.Lib;
+ "Main": '''import { HasArea, Re, Wrap, Opt, Tri, Hold, Measure } from shapes.Lib;
 class Acc(val base: int) {
   method adder(): (int) -> int = (x) -> x + this.base
   method both(k: int): (int) -> int = (x) -> x * k + this.base
@@ -449,6 +454,8 @@ class Main {
     B(_, Some(None)) | B(_, None) -> 4,
     C -> 6,
   }
+  function held(h: Hold): int = match h { { o as Some(v), n } -> v + n, { o as None, n as k } -> k }
+  function asValue(): int = { let g = Wrap.init(Re.init(2, 2)).area; let h = Re.init(3, 3).area; g() + h() }
   function guard(o: Opt<Opt<int>>): int = if let Some(Some(v)) = o { v } else { 0 - 1 }
   function vec(): int = { let v = Vec.empty<int>(); let _ = v.push(3); let _ = v.push(4); v.get(0) + v.get(1) + v.length() }
   function main(): unit = {
@@ -460,6 +467,7 @@ class Main {
     Process.println(Str.fromInt(Measure.twice(Re.init(2, 3)) + Measure.of(Wrap.init(Re.init(4, 5))) + Measure.twice(Wrap.init(Wrap.init(Re.init(1, 1))))));
     Process.println(Str.fromInt(Acc.init(10).adder()(5) + Acc.init(1).both(3)(4)));
     Process.println(Str.fromInt(Main.vec()));
+    Process.println(Str.fromInt(Main.held(Hold.init(Opt.Some(30), 4)) + Main.held(Hold.init(Opt.None<int>(), 5)) + Main.asValue()));
   }
 }
 '''}
@@ -498,7 +506,10 @@ class Ar { function g(a: int): int = a
 class Du { function f(a: int, a: int): int = a }
 class Du { }
 class Un<T>(N, S(T)) { function f(): int = { let x = Un.N(); 1 } }
-class Or(Ci(int), Re(int, int), Em) { function f(s: Or): int = match s { Ci(r) | Re(w, h) -> 1, Em -> 0 } }
+class Or(Ci(int), Re(int, int), Em) { function f(s: Or): int = match s { Ci(r) | Re(w, h) -> 1, Em -> 0 }
+  function g(s: Or): int = match s { Re(w, h) | Ci(r) -> 2, Em -> 0 } }
+interface It2 { method <A, B> m(a: A, b: B): int }
+class Cn2 : It2 { method <B, A> m(a: B, b: A): int = 1 }
 interface Ca1 : Cb1 { }
 interface Cb1 : Ca1 { }
 interface Fi { function notAllowed(): int }
@@ -520,9 +531,96 @@ def cov_family():
         other = names[(k + 1) % len(names)]
         src[m] = f"import {{ Nope{k}, Sup }} from {other};\nimport {{ Gone }} from Not.There{k};\n" + COV_ERR_BODY
     fam.append(dict(sources=src, entry="Zeta", std=False, kind="rejected", label="cov-rejected-4-modules"))
-    two = {"Zz": "import { Nope } from Aa;\n" + COV_ERR_BODY, "Aa": COV_ERR_BODY + "class Sy { function f(): int = }\n"}
+    two = {"Zz": "import { Nope } from Aa;\n" + COV_ERR_BODY + "class Sz { function f(): int = 1 + + ; function g(: int = 2 }\n",
+           "Aa": COV_ERR_BODY + "class Sy { function f(): int = }\nclass Sz { function f(): int = 1 + + ; function g(: int = 2 }\n"}
     fam.append(dict(sources=two, entry="Zz", std=True, kind="rejected", label="cov-rejected-2-modules"))
+    fam.append(dict(sources={"Zz": "class Zz {}\n", "ModuleWithLongNameAlpha": "class Q {}\n"}, entry="Zz", std=False, kind="rejected",
+                    missing_entry="not.ThereAtAllWithLongName", label="cov-invalid-entry-point"))
     return fam
+
+
+def loop_family():
+    """Deterministic family for the temp-number discipline across phase boundaries (round 5, class of
+    seeded C12e): several tail-recursive (loop) functions, the later ones with 3-5 closure calls per
+    iteration (LIR lowering needs two temporaries per closure call), an earlier long loop function
+    without closure calls, lambdas with and without captures."""
+    def prints(n, v):
+        return "".join(f"      let _ = Process.println(Str.fromInt({v} + {k}));\n" for k in range(1, n + 1))
+    fam = []
+    for variant, (na, nclos) in enumerate([(12, 3), (4, 5), (20, 3)]):
+        clos_params = ", ".join(f"f{j}: (int) -> int" for j in range(nclos))
+        clos_calls = " + ".join(f"f{j}(i)" for j in range(nclos))
+        clos_pass = ", ".join(f"f{j}" for j in range(nclos))
+        lambdas = ", ".join(["(x) -> x * 2", "(x) -> x + 5", "(x) -> x * x", "(x) -> x - k", "(x) -> k * x + 1"][:nclos])
+        text = ("class Main {\n"
+                f"  function aaa(i: int, acc: int): int =\n    if i >= 3 {{\n      acc\n    }} else {{\n{prints(na, 'acc')}      Main.aaa(i + 1, acc + i)\n    }}\n"
+                f"  function bbb(i: int, acc: int, {clos_params}): int =\n    if i >= 4 {{\n      acc\n    }} else {{\n{prints(2, 'acc')}      Main.bbb(i + 1, acc + {clos_calls}, {clos_pass})\n    }}\n"
+                f"  function ccc(i: int, acc: int, g: (int) -> int): int = if i * i > 50 {{ acc }} else {{ Main.ccc(i + 2, acc + g(acc) + g(i) + g(i + 1), g) }}\n"
+                "  function main(): unit = {\n    let k = 3;\n"
+                "    let _ = Process.println(Str.fromInt(Main.aaa(0, 0)));\n"
+                f"    let _ = Process.println(Str.fromInt(Main.bbb(0, 0, {lambdas})));\n"
+                "    let _ = Process.println(Str.fromInt(Main.ccc(0, 1, (x) -> x % 7 + k)));\n  }\n}\n")
+        fam.append(dict(sources={"Main": text}, entry="Main", std=False, kind="accepted", label=f"loops-{variant}"))
+    return fam
+
+
+TEMP_RE = re.compile(r"(?<![A-Za-z0-9$])_t(\d+)")
+
+
+def temp_indices(text):
+    return [int(x) for x in TEMP_RE.findall(text)]
+
+
+def ts_duplicate_declarations(ts):
+    """`let x` declared twice in the same block of the emitted TS (a SyntaxError when loaded)."""
+    dups, stack = [], [set()]
+    for tok in re.finditer(r"[{}]|\blet\s+([A-Za-z_$][A-Za-z0-9_$]*)|'(?:[^'\\\\]|\\\\.)*'|\"(?:[^\"\\\\]|\\\\.)*\"|`[^`]*`", ts):
+        t = tok.group(0)
+        if t == "{":
+            stack.append(set())
+        elif t == "}":
+            if len(stack) > 1:
+                stack.pop()
+        elif tok.group(1):
+            if tok.group(1) in stack[-1]:
+                dups.append(tok.group(1))
+            stack[-1].add(tok.group(1))
+    return dups
+
+
+def discipline_violations(a):
+    """Checks on one process answer (deterministic, no race needed):
+    (1) heap length handed to the next phase > every temp number present in the optimised MIR, and
+        after LIR lowering > every temp number in the emitted code;
+    (2) sync discipline from the heap hook: every created counter is synced before the heap issues
+        a temp again / another counter is created;
+    (3) no `let` declared twice in one block of the emitted TS."""
+    out = []
+    hl = a.get("heap_lens")
+    if hl and "mir1" in a:
+        m1 = max(temp_indices(a["mir1"]) or [-1])
+        if m1 >= hl[1]:
+            out.append(f"optimize_sources returned with heap length {hl[1]} although the optimised MIR contains the temp _t{m1}: the next phase will issue that number again")
+        m2 = max(temp_indices(a.get("lir_ts", "")) or [-1])
+        if m2 >= hl[2]:
+            out.append(f"compile_mir_to_lir returned with heap length {hl[2]} although the emitted code contains _t{m2}")
+    log = a.get("counter_log")
+    if log is not None:
+        open_counter = None
+        for ev in [e for e in log.split(",") if e]:
+            if ev[0] == "c":
+                if open_counter is not None:
+                    out.append(f"a temp counter created at {open_counter} was never synced before the next counter was created"); break
+                open_counter = ev[1:]
+            elif ev[0] == "s":
+                open_counter = None
+            elif ev[0] == "t" and open_counter is not None:
+                out.append(f"heap.alloc_temp_str was called while the counter created at {open_counter} had not been synced (sync_temp_counter missing at a phase boundary)"); break
+    for key in ("ts", "lir_ts"):
+        d = ts_duplicate_declarations(a.get(key) or "")
+        if d:
+            out.append(f"emitted TS declares {d[0]} twice in one block"); break
+    return out
 
 
 # --------------------------------------------------------------------------- known findings
@@ -658,6 +756,10 @@ def compare(ctx, prog, answers, orders, stats):
                 stats["error_kinds"][k] = stats["error_kinds"].get(k, 0) + 1
             stats["diag_blocks"] += len(blocks(answers[0]["diag"]))
         return None
+    for a in answers:
+        dv = discipline_violations(a)
+        if dv:
+            return ("temp-number discipline broken: " + dv[0], None)
     if len({behaviour(a) for a in answers}) > 1:
         return ("behaviour of the emitted program differs", classify_behaviour_diff(ctx, prog, answers))
     if answers[0].get("wasm", {}).get("end", "").startswith("no-node"):
@@ -725,7 +827,7 @@ def gen_errset_line(rng):
         m = rng.below(nm)
         sl, sc = rng.range(1, 3), rng.range(1, 4)
         el, ec = sl + rng.below(2), sc + rng.range(0, 3)
-        rank = rng.pick([0, 2, 3, 3, 6, 9, 10, 10, 14, 21, 22])
+        rank = rng.pick([0, 2, 3, 3, 6, 9, 10, 10, 14, 16, 16, 21, 22])
         if rank == 0:
             atoms = [f"m{rng.below(nm)}", pstr()]
         elif rank == 2:
@@ -738,6 +840,11 @@ def gen_errset_line(rng):
             atoms = [pstr() for _ in range(rng.range(0, 3))]
         elif rank == 14:
             atoms = [f"n{rng.range(0, 3)}", f"n{rng.range(0, 3)}"]
+        elif rank == 16:    # a Description chain: NominalType{name, [..]} nested 0-3 deep, ending in Int / Bool / Class / nothing
+            atoms = []
+            for _ in range(rng.range(0, 3)):
+                atoms += ["n13", pstr()]
+            atoms += rng.pick([["n1"], ["n2"], ["n12", pstr()], []]) if atoms else rng.pick([["n1"], ["n2"], ["n12", pstr()]])
         elif rank == 22:
             atoms = [f"n{rng.below(2)}"]
         else:
@@ -753,6 +860,26 @@ def gen_errset_line(rng):
     return [f"merge {ms} {ss} {fmt(groups)}", f"merge {ms} {ss} {fmt(rng.shuffle(groups))}",
             f"merge {ms} {ss} {fmt([rng.shuffle([e for g in groups for e in g])])}",
             f"mergen {ms} {ss} {fmt(groups)}", f"mergen {ms2} {ss} {fmt(rng.shuffle(groups))}"]
+
+
+def big_errset_lines():
+    """Deterministic family (blocks of 5 like the generated ones): 24-90 errors over 2-4 modules, every
+    location carries 2-3 errors of different kinds / atoms (ties on the position, decided by the detail),
+    allocation orders that are not the name order (stable by-name sort: class of seeded C12d)."""
+    out = []
+    for nm, per, allocs in [(2, 17, ("1,0", "0,1")), (3, 8, ("2,0,1", "1,2,0")), (4, 22, ("3,1,0,2", "2,3,1,0")), (3, 12, ("0,2,1", "2,1,0"))]:
+        errs = []
+        for m in range(nm):
+            for j in range(per):
+                loc = f"{m}.{1 + j // 3}.{1 + j % 2}.{1 + j // 3}.{3 + j % 2}"
+                errs += [f"{loc}.3.i{(97 + j % 5):02x}", f"{loc}.21.-", f"{loc}.3.h{j % 2}", f"{loc}.10.i61+h{(j + 1) % 2}", f"{loc}.14.n{j % 3}+n1"][: 2 + j % 3]
+        # modules interleaved in the groups
+        groups = [errs[i::3] for i in range(3)]
+        fmt = lambda gs: ";".join(",".join(g) if g else "-" for g in gs)
+        a1, a2 = allocs
+        out += [f"merge {a1} 1,0 {fmt(groups)}", f"merge {a1} 1,0 {fmt(list(reversed(groups)))}", f"merge {a1} 1,0 {fmt([errs[::-1]])}",
+                f"mergen {a1} 1,0 {fmt(groups)}", f"mergen {a2} 1,0 {fmt(list(reversed(groups)))}"]
+    return out
 
 
 def py_key(spec, M, S):
@@ -771,10 +898,11 @@ def py_key(spec, M, S):
 
 def errset_leg(ctx, stats):
     rng = ctx.rng.fork()
-    n = ctx.scale(400, 6000)
+    n = ctx.scale(300, 6000)
     lines = []
     for _ in range(n):
         lines += gen_errset_line(rng)
+    lines = big_errset_lines() + lines
     impl, model = common.run_pair("C12", lines, args=("errset",))
     stats["errset_lines"] = len(lines)
     bad = None
@@ -787,8 +915,12 @@ def errset_leg(ctx, stats):
         if t[0] == "mergen":
             # report in module-name order: independent of the allocation order M of the modules
             # (module-internal order: position, then detail; details only tie-break equal positions)
-            heads = lambda es: ",".join("M{}.sam:{}:{}-{}:{}".format(f[0], *(int(x) + 1 for x in f[1:5])) for f in es)
-            want = heads(sorted((e.split(".") for e in uniq), key=lambda f: (int(f[0]), [int(x) for x in f[1:5]])))
+            def tok(f):
+                tag = f[5] if f[5] != "3" else "3#" + f[6]
+                return "M{}.sam:{}:{}-{}:{}#{}".format(f[0], *(int(x) + 1 for x in f[1:5]), tag)
+            # module-name order, then the set order inside a module (allocation ids of modules play no role there)
+            inner = lambda e: py_key(e, M, S)[1:]
+            want = ",".join(tok(e.split(".")) for e in sorted(uniq, key=lambda e: (int(e.split(".")[0]), inner(e))))
             if a != (want if want else "-"):
                 bad = ("oracle-by-name", i, a, want); break
             if i % 5 == 4 and a != impl[i - 1]:
@@ -934,7 +1066,7 @@ def cex_leg(ctx, stats):
         stats["cex_skipped"] = "C07 harness/driver unavailable"
         return
     rng = ctx.rng.fork()
-    n = ctx.scale(150, 2500)
+    n = ctx.scale(100, 2500)
     cases = [c07.gen_case(rng.fork()) for _ in range(n)]
     lines = [c07.case_line(c) for c in cases]
     rep = [l for l in lines for _ in range(3)]
@@ -1136,11 +1268,21 @@ def run(ctx):
         check_program(ctx, prog, rng.fork(), 10, stats, prog["label"], shrink=False)
     for prog in cov_family():
         check_program(ctx, prog, rng.fork(), 12, stats, prog["label"], shrink=False)
+    for prog in loop_family():
+        # same allocation order, RAYON_NUM_THREADS 1,2,4,16 three times each
+        answers = run_configs([(mk_req(prog, ["Main"], run=True, mir=True), th) for th in (1, 2, 4, 16) * 3])
+        stats["evaluations"] += len(answers)
+        r = compare(ctx, prog, answers, [["Main"]] * len(answers), stats)
+        if r is not None and r[1] is None:
+            ctx.violation("loop family (same sources, RAYON_NUM_THREADS 1/2/4/16): " + r[0],
+                          {"protocol": "fresh-process compile", "label": prog["label"], "sources": prog["sources"], "entry": "Main", "std": False,
+                           "what": r[0], "runs": [{"threads": th, "verdict": a.get("verdict"), "wasm": a.get("wasm"), "ts": a.get("tsrun"),
+                                                   "heap_lens": a.get("heap_lens"), "counter_log": a.get("counter_log")} for th, a in zip((1, 2, 4, 16) * 3, answers)][:12]})
     n_acc = ctx.scale(36, 400)
-    n_rej = ctx.scale(70, 800)
+    n_rej = ctx.scale(56, 800)
     n_seed = ctx.scale(16, 120)
     p_acc = ctx.scale(6, 16)
-    p_rej = ctx.scale(10, 24)
+    p_rej = ctx.scale(8, 24)
     n_long = ctx.scale(14, 150)
     plan = ([("acc", i) for i in range(n_acc)] + [("rej", i) for i in range(n_rej)] + [("shape", i) for i in range(n_seed)]
             + [("long", i) for i in range(n_long)])
